@@ -240,3 +240,57 @@ def _restoring_conversion(fname, label):
 
 ConversionRestores_s = register(_restoring_conversion("to_gfa2_s", "to_gfa2_s"))
 ConversionRestores_g = register(_restoring_conversion("to_gfa2", "to_gfa2"))
+
+
+@register
+class Gfa1EdgesWithoutId(Contract):
+    fn = "gfapy/gfa.py::Gfa._gfa1_edges_without_id"
+    props = ("C10", "C09")
+    fragment = "H"
+    doc = ("what a whole-graph conversion records before it starts: exactly the links AND containments that have no ID tag (in their order; a filter over both "
+           "collections), the present value of the counter of integer names, and a COPY of the registry of links and of the registry of containments "
+           "(not the registries themselves: they are rewritten while identifiers are given and taken back); nothing is written")
+
+    def cases(self, ctx):
+        import builtins
+        g = ctx.gfapy
+        nd, nc, mx = z3.Int("n_dovetails"), z3.Int("n_containments"), z3.Int("counter")
+        dv, cn = z3.Const("dovetail", AII_), z3.Const("containment", AII_)
+        has_id = z3.Const("has_ID", AIB_)
+        gfa = Obj(g.Gfa, "gfa")
+        regL, regC = Obj(None, "registry_of_links"), Obj(None, "registry_of_containments")
+        class Records:
+            def pyvc_getitem(self, E, i, st):
+                k_ = conc(i)
+                if k_ not in ("L", "C"):
+                    raise Unsupported("_records[%r]" % (k_,))
+                yield ("val", regL if k_ == "L" else regC, st)
+        class CopyOf:
+            def __init__(self, of):
+                self.of = of
+        def m_dict(E, st, pos, kw):
+            if len(pos) != 1 or pos[0] not in (regL, regC):
+                raise Unsupported("dict(%r)" % (pos,))
+            yield ("val", CopyOf(pos[0]), [])
+        def m_get(E, st, pos, kw):
+            if conc(pos[1]) != "ID":
+                raise Unsupported("get(%r)" % (pos[1],))
+            yield ("val", Opt(z3.Not(has_id[pos[0].t]), Obj(None, "an_id")), [])
+        heap = {gfa.oid: {"_records": Records(), "_max_int_name": mx}, regL.oid: {}, regC.oid: {}}
+        models = {g.Gfa.dovetails.fget: const_model(lambda s_: SList(nd, dv, lambda t: Ref(t, g.line.edge.Link))),
+                  g.Gfa.containments.fget: const_model(lambda s_: SList(nc, cn, lambda t: Ref(t, g.line.edge.Link))),
+                  ctx.fn("gfapy/line/common/field_data.py::FieldData.get"): m_get, builtins.dict: m_dict}
+        k, j = z3.Int("k"), z3.Int("j")
+        src = lambda x: z3.If(x < nd, dv[x], cn[x - nd])              # the two collections, one after the other
+        def post(kd, v, st):
+            if kd == "raise" or not isinstance(v, (tuple, list)) or len(v) != 3:
+                return z3.BoolVal(False)
+            edges, counter, regs = v
+            if not isinstance(edges, SList) or not isinstance(regs, dict) or set(regs) != {"L", "C"}:
+                return z3.BoolVal(False)
+            copies = isinstance(regs["L"], CopyOf) and regs["L"].of is regL and isinstance(regs["C"], CopyOf) and regs["C"].of is regC
+            # every edge without identifier is in the list, every element of the list is such an edge (the filter axioms carry order and multiplicity)
+            complete = z3.ForAll([j], z3.Implies(z3.And(0 <= j, j < nd + nc, z3.Not(has_id[src(j)])), z3.Exists([k], z3.And(0 <= k, k < edges.n, edges.el[k] == src(j)))))
+            sound = z3.ForAll([k], z3.Implies(z3.And(0 <= k, k < edges.n), z3.And(z3.Not(has_id[edges.el[k]]), z3.Exists([j], z3.And(0 <= j, j < nd + nc, src(j) == edges.el[k])))))
+            return z3.And(z3.BoolVal(copies), S(counter) == mx, complete, sound)
+        return [Case("gfa1", [gfa], post, pre=[nd >= 0, nc >= 0], heap=heap, models=models, symbols=dict(n_dovetails=nd, n_containments=nc), minimize=[nd, nc])]
